@@ -1,8 +1,8 @@
 package main
 
 import (
-	"go/token"
 	"fmt"
+	"go/token"
 	"sort"
 	"strings"
 
@@ -23,16 +23,19 @@ func runC17(c *Ctx, r *Report) {
 	c17Handle(c, r, "C17.R3")
 	c17Limiters(c, r, "C17.R5")
 	c09R4(c, r, "C17.R7") // ... and a datagram waits for a slow (throttled) reader: the server loop hands it to the association's queue with a send that is not abandoned when the queue is full
+	c17TotalLimiterOwn(c, r, "C17.R8")
 	c09R7(c, r, "C17.R6") // throttling never loses bytes: a datagram read in batch-sized pieces (the virtual UDP connection's Read) is delivered completely, also when its length is a multiple of the batch
 }
 
-func c17Read(c *Ctx, r *Report) {
-	r.rule("C17.R1", "throttledConn.Read: each present limiter gets WaitN(ctx, batch) before the one underlying Read(p[:batch]); batch = min(len(p), burst of every present limiter); a failed wait performs no read and returns (0, error)", 9)
-	r.rule("C17.R4", "the underlying read's results are returned unchanged", 9)
+func c17Read(c *Ctx, r *Report) { c17ReadAs(c, r, "C17.R1", "C17.R4") }
+
+func c17ReadAs(c *Ctx, r *Report, r1, r4 string) {
+	r.rule(r1, "throttledConn.Read: each present limiter gets WaitN(ctx, batch) before the one underlying Read(p[:batch]); batch = min(len(p), burst of every present limiter); a failed wait performs no read and returns (0, error)", 9)
+	r.rule(r4, "the underlying read's results are returned unchanged", 9)
 	fnName := "modules/l4throttle.(throttledConn).Read"
 	fn := c.Fn(fnName)
 	if fn == nil {
-		r.bad("C17.R1", fnName, "exists", "-", "function not found")
+		r.bad(r1, fnName, "exists", "-", "function not found")
 		return
 	}
 	type lim struct {
@@ -57,7 +60,7 @@ func c17Read(c *Ctx, r *Report) {
 		// it is kept in): the handler-wide limiter is "totalLimiter", the one made for the connection "localLimiter"
 		state, installed, herr := c17InstalledState(c, cs.t.present, cs.l.present)
 		if herr != "" {
-			r.bad("C17.R1", fnName, name, c.pos(fn.Pos()), "undecided: "+herr)
+			r.bad(r1, fnName, name, c.pos(fn.Pos()), "undecided: "+herr)
 			continue
 		}
 		sc := &Scenario{Name: name, Params: map[string]SV{"recv": {K: "struct", Desc: installed}, "p0": symSlice("p", lenP)}, Heap: state}
@@ -81,7 +84,7 @@ func c17Read(c *Ctx, r *Report) {
 		}
 		paths, err := evalPaths(fn, sc)
 		if err != nil || len(paths) == 0 {
-			r.bad("C17.R1", fnName, name, c.pos(fn.Pos()), fmt.Sprintf("undecided: %v", err))
+			r.bad(r1, fnName, name, c.pos(fn.Pos()), fmt.Sprintf("undecided: %v", err))
 			continue
 		}
 		batch := lenP
@@ -186,8 +189,8 @@ func c17Read(c *Ctx, r *Report) {
 				p4 = append(p4, "the underlying read's (n, err) is not returned unchanged: "+p.retDesc())
 			}
 		}
-		r.check(len(p1) == 0, "C17.R1", fnName, name, c.pos(fn.Pos()), fmt.Sprintf("%d paths, batch=%d", len(paths), batch), strings.Join(dedup(p1), "\n"))
-		r.check(len(p4) == 0, "C17.R4", fnName, name, c.pos(fn.Pos()), "pass-through", strings.Join(dedup(p4), "\n"))
+		r.check(len(p1) == 0, r1, fnName, name, c.pos(fn.Pos()), fmt.Sprintf("%d paths, batch=%d", len(paths), batch), strings.Join(dedup(p1), "\n"))
+		r.check(len(p4) == 0, r4, fnName, name, c.pos(fn.Pos()), "pass-through", strings.Join(dedup(p4), "\n"))
 	}
 }
 
